@@ -14,11 +14,11 @@ func verifSrc(n int) []byte {
 	switch verifParam("alpha") {
 	case 1:
 		for _, b := range src {
-			verifAssume(strings.IndexByte(verifSigmaSh, b) >= 0)
+			verifAssume(verifInSet(b, verifSigmaSh))
 		}
 	case 2: // Σsh plus exotic bytes
 		for _, b := range src {
-			verifAssume(strings.IndexByte(verifSigmaSh+"\r\x00\xc3\xa9\xff", b) >= 0)
+			verifAssume(verifInSet(b, verifSigmaSh+"\r\x00\xc3\xa9\xff"))
 		}
 	}
 	return src
@@ -83,6 +83,13 @@ func verifNorm(f *File) {
 	})
 }
 
+// verifC01Known marks the regions of listed known findings of the printer
+// round trip (see /verif/known_findings.json); it returns true when the path
+// lies in such a region and must be skipped.
+func verifC01Known(src []byte, f *File, o verifOpts) bool {
+	return false
+}
+
 // Verif_c01_roundtrip: parse -> print(opts) -> parse gives the same tree
 // (mode&1), and print is idempotent (mode&2).
 func Verif_c01_roundtrip() {
@@ -111,15 +118,17 @@ func Verif_c01_roundtrip() {
 	outs := out.String()
 	verifObserve("printed", outs)
 	f2, err2 := NewParser(Variant(lang), KeepComments(true)).Parse(strings.NewReader(outs), "")
+	if mode&1 != 0 {
+		verifAssert(err2 == nil, "printed output does not parse again")
+	}
+	verifAssume(err2 == nil)
 	if mode&2 != 0 && !o.keepPad {
-		verifAssume(err2 == nil)
 		var out2 bytes.Buffer
 		perr2 := o.printer().Print(&out2, f2)
 		verifAssert(perr2 == nil, "Print failed on the re-parsed tree")
 		verifAssert(out2.String() == outs, "formatting is not idempotent")
 	}
 	if mode&1 != 0 {
-		verifAssert(err2 == nil, "printed output does not parse again")
 		verifNorm(f)
 		verifNorm(f2)
 		verifAssert(verifTreeEq(f, f2, 1|2|4), "re-parsed tree differs from the original tree")
